@@ -147,6 +147,14 @@ class ModelFS:
         self.open_handles = 0
         self.fault_writes = False
 
+    def __deepcopy__(self, memo):
+        # the file system is an external resource: copying an object that refers to it (FileSet.copy()
+        # deep-copies the fileset with its handler) does not copy the disk
+        return self
+
+    def __copy__(self):
+        return self
+
     def fault(self, what):
         k = self.calls
         self.calls += 1
